@@ -19,6 +19,8 @@ pub struct Case {
 
 pub struct Corpus {
     pub items: Vec<(String, Option<Vec<u8>>)>,
+    /// width a corpus program was selected for (coverage corpus), by program text
+    pub bits: std::collections::HashMap<String, u32>,
 }
 
 pub fn load_corpus(dir: &str) -> Corpus {
@@ -41,7 +43,17 @@ pub fn load_corpus(dir: &str) -> Corpus {
             }
         }
     }
-    Corpus { items }
+    let mut bits = std::collections::HashMap::new();
+    if let Ok(s) = std::fs::read_to_string(format!("{dir}/jitcov.tsv")) {
+        for l in s.lines() {
+            let p: Vec<&str> = l.split('\t').collect();
+            if p.len() == 2 && spec::check_brackets(p[1]).is_ok() {
+                items.push((p[1].to_string(), None));
+                bits.insert(p[1].to_string(), p[0].parse().unwrap_or(8));
+            }
+        }
+    }
+    Corpus { items, bits }
 }
 
 fn pick_bits(rng: &mut Rng, wrapish: bool) -> u32 {
@@ -288,7 +300,7 @@ pub fn diff(args: &Args) -> i32 {
         let mut rng = Rng::derive(args.seed, fnv64(prop.as_bytes()), idx);
         let case = if args.get("no-corpus").is_none() && idx < ncorpus {
             let it = &corpus.items[idx as usize];
-            let bits = if it.1.is_some() { 8 } else { *rng.pick(&[8u32, 8, 16, 32, 64]) };
+            let bits = if it.1.is_some() { 8 } else if let Some(&b) = corpus.bits.get(&it.0) { b } else { *rng.pick(&[8u32, 8, 16, 32, 64]) };
             Case { code: it.0.clone(), bits, family: Family::Corpus, fixed_input: it.1.clone() }
         } else {
             gen_case(&prop, &mut rng, &corpus, args.thorough)
@@ -1420,4 +1432,146 @@ pub fn c12(args: &Args) -> i32 {
     } else {
         1
     }
+}
+
+// ---- coverage-guided search for JIT selector cases (generator 6 of the design) ------------------
+
+fn jit_keys(code: &str, bits: u32, level: u32) -> Option<Vec<String>> {
+    let v = std::panic::catch_unwind(|| c11_translate(code, bits, level, 11, false)).ok()??;
+    let mut keys: Vec<String> = (0..v.insts.len()).map(|i| crate::bcref::selector_key(&v, i)).collect();
+    keys.sort();
+    keys.dedup();
+    Some(keys)
+}
+
+/// Many values alive at once: a long straight-line block (optionally inside a loop) that reads a set
+/// of cells repeatedly, forming sums and products, before anything is overwritten.
+pub fn gen_wide(rng: &mut Rng) -> String {
+    let n = rng.range(8, 20);
+    let mut b = gen::Builder::new(rng, n + 6, false, 6000);
+    for c in 0..n {
+        if b.rng.chance(1, 2) {
+            b.input(c);
+        } else {
+            let v = b.rng.range(1, 4);
+            b.add(c, v);
+        }
+    }
+    let in_loop = b.rng.chance(1, 2);
+    let ctr = n + 5;
+    if in_loop {
+        b.add(ctr, 2);
+        b.goto(ctr);
+        b.out.push('[');
+    }
+    let m = b.rng.range(4, 16);
+    for k in 0..m {
+        let dst = n + (k % 4);
+        let t = n + 4;
+        let i = b.rng.range(0, n - 1);
+        let j = b.rng.range(0, n - 1);
+        match b.rng.below(3) {
+            0 => {
+                // dst += x_i * x_j (nested drains restore x_i, x_j)
+                b.goto(i);
+                b.out.push('[');
+                b.add(i, -1);
+                b.add(t, 1);
+                if i != j {
+                    // dst += x_j ; via second temp: use dst's neighbour as temp is unsafe: use ctr-1 cell n+4? keep simple
+                    b.goto(j);
+                    b.out.push('[');
+                    b.add(j, -1);
+                    b.add(dst, 1);
+                    b.add(n + 4 + 0, 0);
+                    b.goto(j);
+                    b.out.push(']');
+                } else {
+                    b.add(dst, 2);
+                }
+                b.goto(i);
+                b.out.push(']');
+                b.drain(t, &[(i, 1)], 1);
+            }
+            1 => {
+                let kk = b.small_const();
+                b.add_mul(dst, i, kk, t);
+            }
+            _ => {
+                let kk = b.small_const();
+                b.add_mul(i, j, kk, t);
+            }
+        }
+    }
+    if in_loop {
+        b.add(ctr, -1);
+        b.goto(ctr);
+        b.out.push(']');
+    }
+    for c in 0..n + 4 {
+        b.output(c);
+    }
+    b.out
+}
+
+pub fn hunt(args: &Args) -> i32 {
+    let corpus = load_corpus(&args.corpus);
+    let start = std::time::Instant::now();
+    let mut seen: std::collections::HashMap<String, (String, u32, u32)> = std::collections::HashMap::new();
+    let mut pool: Vec<String> = Vec::new();
+    let mut rng = Rng::derive(args.seed, 0x6a17, args.shard);
+    let mut tried = 0u64;
+    while start.elapsed().as_secs() < args.secs {
+        let code = match rng.below(10) {
+            0..=2 => gen::pressure(&mut rng, false),
+            3 => gen::pressure_products(&mut rng),
+            4..=5 => gen_wide(&mut rng),
+            6 => gen::structured(&mut rng, false, 600),
+            _ => {
+                if pool.is_empty() {
+                    gen_wide(&mut rng)
+                } else {
+                    let base = rng.pick(&pool).clone();
+                    gen::mutate(&mut rng, &base)
+                }
+            }
+        };
+        if code.len() > 4000 || spec::check_brackets(&code).is_err() {
+            continue;
+        }
+        tried += 1;
+        let bits = *rng.pick(&[8u32, 16, 32, 64, 64]);
+        let level = *rng.pick(&[1u32, 2, 3]);
+        if let Some(keys) = jit_keys(&code, bits, level) {
+            let mut novel = false;
+            for k in keys {
+                match seen.get(&k) {
+                    Some((c, _, _)) if c.len() <= code.len() => {}
+                    Some(_) => {
+                        seen.insert(k, (code.clone(), bits, level));
+                    }
+                    None => {
+                        novel = true;
+                        seen.insert(k, (code.clone(), bits, level));
+                    }
+                }
+            }
+            if novel {
+                pool.push(code);
+                if pool.len() > 400 {
+                    pool.remove(0);
+                }
+            }
+        }
+    }
+    let _ = &corpus;
+    let mut out = String::new();
+    let mut ks: Vec<_> = seen.into_iter().collect();
+    ks.sort();
+    for (k, (c, bits, level)) in ks {
+        out.push_str(&format!("{}\t{}\t{}\t{}\n", k, bits, level, c));
+    }
+    std::fs::write(&args.out, out).unwrap();
+    eprintln!("hunt: tried {tried} programs");
+    0
 }
